@@ -631,13 +631,9 @@ Section MainLoop.
         + exists []. unfold cs_notify_all. cbn [fold_left e_changes]. rewrite Eb. reflexivity.
       - (* list *)
         (* the common prefix replaces the span the completer named: the state is still the one it looked at *)
-        assert (Hstep1 : match (match lcp_all (cd :: cds) with
-                                | Some lcp =>
-                                  if Nat.ltb (pos (e_line s) - start) (blen lcp) || Nat.eqb (length (cd :: cds)) 1
-                                  then completer_update U start lcp ;;; refresh_line U cfg else eret tt
-                                | None => eret tt
-                                end) s with EPanic => False | EOk _ s' => P H s' | _ => True end).
-        { destruct (lcp_all (cd :: cds)) as [lcp|]; [|exact HP].
+        assert (Hstep1 : match list_span_step U cfg start (cd :: cds) s with EPanic => False | EOk _ s' => P H s' | _ => True end).
+        { unfold list_span_step. unfold ebind at 1. cbn [eget].
+          destruct (lcp_all (cd :: cds)) as [lcp|]; [|exact HP].
           match goal with |- match (if ?c then _ else _) s with _ => _ end => destruct c end; [|exact HP].
           unfold ebind at 1. unfold completer_update. unfold ebind at 1. cbn [eget].
           destruct (replace_total start (pos (e_line s)) lcp (e_line s) (conj Hbs (conj Hw Hle))) as [a [b' [ev [Hrep Hw']]]]. destruct a.
@@ -703,7 +699,7 @@ Section MainLoop.
       | _ => True
       end.
     Proof.
-      intros HP Hct. unfold complete_line. unfold ebind at 1. cbn [eget].
+      intros HP Hct. unfold complete_line, list_span_step. unfold ebind at 1. cbn [eget].
       pose proof HP as [[HJ HN] Hh]. pose proof HJ as [Hw [Hi [Hk [Hsv Hg]]]].
       destruct (completer_ok (buf (e_line s)) (pos (e_line s)) Hw) as [Hbs Hle].
       destruct (c_complete cfg (buf (e_line s)) (pos (e_line s))) as [start cands]. cbn [fst] in Hbs, Hle.
